@@ -3,7 +3,7 @@
 import json, sys, os, subprocess
 pid = sys.argv[1]
 base = subprocess.run(["python3","/verif/tools/agent_prompt.py",pid],capture_output=True,text=True).stdout
-base = base.replace(f"/tmp/wt/{pid}", f"/tmp/wt3/{pid}").replace(f"/tmp/wt-out/{pid}", f"/tmp/wt3-out/{pid}")
+base = base.replace(f"/tmp/wt/{pid}", f"/tmp/wt4/{pid}").replace(f"/tmp/wt-out/{pid}", f"/tmp/wt4-out/{pid}")
 known=[]
 for d in sorted(os.listdir('/verif/seeded')):
     m=json.load(open(f'/verif/seeded/{d}/meta.json'))
